@@ -65,9 +65,12 @@ func (sess *UserSession) Copy(numSet imap.NumSet, destName string) (*imap.CopyDa
 		}
 	}
 
+	unlock := lockMailboxes(sess.mailbox.Mailbox, dest)
+	defer unlock()
+
 	var sourceUIDs, destUIDs imap.UIDSet
-	sess.mailbox.forEach(numSet, func(seqNum uint32, msg *message) {
-		appendData := dest.copyMsg(msg)
+	sess.mailbox.forEachLocked(numSet, func(seqNum uint32, msg *message) {
+		appendData := dest.copyMsgLocked(msg)
 		sourceUIDs.AddNum(msg.uid)
 		destUIDs.AddNum(appendData.UID)
 	})
@@ -94,13 +97,13 @@ func (sess *UserSession) Move(w *imapserver.MoveWriter, numSet imap.NumSet, dest
 		}
 	}
 
-	sess.mailbox.mutex.Lock()
-	defer sess.mailbox.mutex.Unlock()
+	unlock := lockMailboxes(sess.mailbox.Mailbox, dest)
+	defer unlock()
 
 	var sourceUIDs, destUIDs imap.UIDSet
 	expunged := make(map[*message]struct{})
 	sess.mailbox.forEachLocked(numSet, func(seqNum uint32, msg *message) {
-		appendData := dest.copyMsg(msg)
+		appendData := dest.copyMsgLocked(msg)
 		sourceUIDs.AddNum(msg.uid)
 		destUIDs.AddNum(appendData.UID)
 		expunged[msg] = struct{}{}
